@@ -34,10 +34,10 @@ REAL = ['glue.core.data.Data mutation API', 'glue.core.component_id', 'glue.core
 STUB = ['recording HubListener', 'uuid and identity-hash streams']
 ASSUMPTIONS = ['messages are compared only when no delay window is open', 'generator guard of the open finding excludes update_values_from_data with a different number of dimensions', 'sampling, not proof']
 PROBES = ['rejected_add_wrong_shape', 'rejected_reorder', 'rejected_update_wrong_shape', 'partial_update_then_reject', 'cascade_remove', 'coords_replaced',
-          'coords_removed', 'update_from_new_shape', 'update_from_label_mismatch', 'ops_in_delay_window', 'outside_collection', 'rename', 'update_id']
+          'coords_removed', 'update_from_new_shape', 'update_from_label_mismatch', 'ops_in_delay_window', 'outside_collection', 'rename', 'update_id', 'joined_collection_later']
 
 WEIGHTS = {'add': 5, 'add_bad': 1.5, 'add_derived': 3, 'remove': 3, 'reorder': 2, 'reorder_bad': 1, 'rename': 2, 'update_id': 1.5, 'upd': 3, 'upd_bad': 1,
-           'upd_partial': 1, 'upd_from': 2, 'coords': 2, 'label': 1, 'delay_open': 1, 'delay_close': 1.5, 'new': 0.7}
+           'upd_partial': 1, 'upd_from': 2, 'coords': 2, 'label': 1, 'delay_open': 1, 'delay_close': 1.5, 'new': 0.7, 'append': 1}
 
 
 def generate(rng, cfg, guards):
@@ -77,6 +77,8 @@ def generate(rng, cfg, guards):
             ops.append([k, r8(), r8()])
         elif k == 'delay_open':
             ops.append([k, 'hub'])
+        elif k == 'append':
+            ops.append(['append', r8()])
         else:
             ops.append(['delay_close', rng.chance(0.2)])
     return {'knobs': {'guards': list(guards), 'prop': PROP}, 'ops': ops}
@@ -199,6 +201,15 @@ def execute(case, res):
                     w.dc.append(d)
                 else:
                     res.probe('outside_collection')
+                if w.quiescent():
+                    base[id(d)] = snap(d)
+                    del sink[:]
+            elif k == 'append':
+                d = pick(op[1])
+                if d is None or any(d is x for x in w.dc):
+                    continue
+                w.dc.append(d)          # a dataset that was mutated outside any collection joins it: from now on it must announce
+                res.probe('joined_collection_later')
                 if w.quiescent():
                     base[id(d)] = snap(d)
                     del sink[:]
